@@ -235,9 +235,13 @@ type c10Cli struct {
 
 // c10ClientCase: a real CSession against a scripted server that answers the
 // Tversion with `answer`, then serves reads and writes at the limits.
-func c10ClientCase(answer p9p.Message) *explore.Scenario {
+func c10ClientCase(answer p9p.Message) *explore.Scenario { return c10ClientCaseP(answer, 0) }
+
+// c10ClientCaseP: the client proposes msize `proposal` (hook VerifCSession);
+// 0: the library's own CSession with its fixed proposal.
+func c10ClientCaseP(answer p9p.Message, proposal int) *explore.Scenario {
 	return &explore.Scenario{
-		Name:     fmt.Sprintf("client/%s", Brief(answer)),
+		Name:     fmt.Sprintf("client/p%d/%s", proposal, Brief(answer)),
 		MaxSteps: 100000,
 		Body: func() any {
 			st := &c10Cli{answer: answer}
@@ -292,7 +296,13 @@ func c10ClientCase(answer p9p.Message) *explore.Scenario {
 			vsched.Go("client", func() {
 				defer func() { st.done = true; clientDone = true; vsched.Yield("client.end", srv.ReadObj()) }()
 				ctx := context.Background()
-				c, err := p9p.CSession(ctx, cli)
+				var c p9p.Session
+				var err error
+				if proposal == 0 {
+					c, err = p9p.CSession(ctx, cli)
+				} else {
+					c, err = p9p.VerifCSession(ctx, cli, proposal)
+				}
 				st.sessErr = err
 				if err != nil {
 					return
@@ -335,6 +345,9 @@ func c10ClientCase(answer p9p.Message) *explore.Scenario {
 				bad("accepted-non-version", "CSession succeeded although the reply to Tversion was not an Rversion")
 				return "bad", fs
 			}
+			if proposal != 0 && st.proposed != uint32(proposal) {
+				bad("proposal-not-sent", "the client was to propose %d but its Tversion carries %d", proposal, st.proposed)
+			}
 			if uint32(st.msize) > st.proposed {
 				bad("adopted-more-than-proposed", "client proposed %d but reports msize %d", st.proposed, st.msize)
 			}
@@ -360,7 +373,7 @@ func c10ClientCase(answer p9p.Message) *explore.Scenario {
 func c10(c *core.Ctx) {
 	c.Budget(100*time.Second, 10*time.Minute)
 	vals := c10Values()
-	c.SetRule(fmt.Sprintf("server side: a scripted client opens a real ServeConn with Tversion(msize p, version v) for p in %d boundary-dense values (0..30, 2^k, 2^k+-1, 65535..65537, 2^31+-1, 2^32-1) x 5 version strings, or with each of the other message kinds; then sends a Twrite frame of exactly the agreed size, Treads of 200000 and 2^32-1 bytes, a Tstat whose reply is large, a Tclunk. client side: a real CSession against a scripted server answering Rversion(msize a) for the same values x version strings, or a non-version reply; then Read and Write of 2*msize+50 bytes with the server answering with frames of exactly the agreed size. One execution (default schedule) per case under the controlled scheduler. Oracle: Rversion.msize <= min(p, 65536); client msize <= min(proposal, a); no later frame in either direction exceeds the agreed size; a frame of exactly that size is accepted; non-version first message or p < 19 refused with an error and nothing dispatched", len(vals)))
+	c.SetRule(fmt.Sprintf("server side: a scripted client opens a real ServeConn with Tversion(msize p, version v) for p in %d boundary-dense values (0..30, 2^k, 2^k+-1, 65535..65537, 2^31+-1, 2^32-1) x 5 version strings, or with each of the other message kinds; then sends a Twrite frame of exactly the agreed size, Treads of 200000 and 2^32-1 bytes, a Tstat whose reply is large, a Tclunk. client side: a real CSession against a scripted server answering Rversion(msize a) for the same values x version strings, or a non-version reply, and the same client with proposals {24,100,65537} (quick) / {19,23,24,25,100,8192,65535,65537,2^20} (thorough) through the VerifCSession hook against every answer; then Read and Write of 2*msize+50 bytes with the server answering with frames of exactly the agreed size. thorough adds every msize 0..4200 and 65000..66100 on both sides. One execution (default schedule) per case under the controlled scheduler. Oracle: Rversion.msize <= min(p, 65536); client msize <= min(proposal, a); no later frame in either direction exceeds the agreed size; a frame of exactly that size is accepted; non-version first message or p < 19 refused with an error and nothing dispatched", len(vals)))
 	c.Assume("the protocol exchange is sequential, so one schedule per case suffices; interleavings of the serve loop are C06's business")
 	versions := []string{"9P2000", "9P2000.u", "", "unknown", strings.Repeat("V", 300)}
 	var scs []*explore.Scenario
@@ -385,6 +398,32 @@ func c10(c *core.Ctx) {
 		}
 	}
 	scs = append(scs, c10ServerCase(p9p.MessageTversion{MSize: 8192, Version: "9P2000"}, 5)) // tagged version request
+	if !c.Quick() {
+		// dense windows: every msize 0..4200 and 65000..66100
+		have := map[uint32]bool{}
+		for _, v := range vals {
+			have[v] = true
+		}
+		for v := uint32(0); v <= 66100; v++ {
+			if v == 4201 {
+				v = 65000
+			}
+			if !have[v] {
+				scs = append(scs, c10ServerCase(p9p.MessageTversion{MSize: v, Version: "9P2000"}, p9p.NOTAG), c10ClientCase(p9p.MessageRversion{MSize: v, Version: "9P2000"}))
+			}
+		}
+	}
+	// client proposals other than the library's default, against every answer
+	props := []int{19, 23, 24, 25, 100, 8192, 65535, 65537, 1 << 20}
+	if c.Quick() {
+		props = []int{24, 100, 65537}
+	}
+	for _, pr := range props {
+		for _, a := range vals {
+			scs = append(scs, c10ClientCaseP(p9p.MessageRversion{MSize: a, Version: "9P2000"}, pr))
+		}
+		scs = append(scs, c10ClientCaseP(p9p.MessageRversion{MSize: uint32(pr), Version: "unknown"}, pr), c10ClientCaseP(p9p.MessageRerror{Ename: "no"}, pr))
+	}
 	classes := map[string]int64{}
 	for i, sc := range scs {
 		if c.Expired() {
